@@ -174,7 +174,8 @@ class Sem:
                 # names declared in the body are local to one iteration; assignments to outer
                 # names persist
                 for n in env:
-                    env[n] = inner[n]
+                    if n != st.iterator_name:  # the iterator is local to the loop: an outer variable of that name is only shadowed
+                        env[n] = inner[n]
             return
         if k == "ReturnStmt":
             raise _Return(self.expr(st.expr, env))
